@@ -245,7 +245,15 @@ func (c *lchain) variants(b types.Block) []variant {
 				t.SiacoinOutputs[0].Value = t.SiacoinOutputs[0].Value.Sub(types.NewCurrency64(10000))
 			}
 			c.resignV1(t)
-			add("c01.v1-contract-wrong-tax", nb, "reject", "")
+			// (the tax is rounded down to a multiple of 10000: in about 4% of the cases the larger payout carries
+			// exactly 10000 more tax and the altered contract is a valid one; only the others must be rejected)
+			var vsum types.Currency
+			for _, o := range t.FileContracts[0].ValidProofOutputs {
+				vsum = vsum.Add(o.Value)
+			}
+			if t.FileContracts[0].Payout != vsum.Add(c.cs().FileContractTax(t.FileContracts[0])) {
+				add("c01.v1-contract-wrong-tax", nb, "reject", "")
+			}
 		}
 		if len(txn.FileContractRevisions) > 0 {
 			nb := cloneBlock(b)
